@@ -203,6 +203,21 @@ def r3_commands(ctx, F):
     ctx.check(ok, rule, 'send-history-before-network', b,
               good='record_msg_out is consulted before the message enters the network',
               bad='process_commands: record_msg_out does not precede Network::send')
+    if rec:
+        # the history is threaded: each hook call reads the state's current history, and a revised
+        # history is stored back before the next command is looked at
+        hv = [noref(b.val(a)) for a in rec[0].args]
+        reads = any(v.kind == 'arg' and v.fields()[-1:] == ('.history',) for v in hv)
+        stores = [i for (i, si, st) in b.assigns(lambda st: any(isinstance(e, dict) and e.get('name') == 'history'
+                                                                for e in st['lhs']['p']))]
+        some = b.branch(rec[0], 'Some')
+        r = b.reach([e[1] for e in some], cut_blocks=stores) if some else set()
+        late = bool(some) and ((nx is not None and nx.bb in r) or any(x in r for x in b.returns))
+        ctx.check(reads and bool(stores) and bool(some) and not late, rule, 'send-history-threaded', b,
+                  good='record_msg_out reads state.history and its result is stored before the next command',
+                  bad='process_commands: the history returned by record_msg_out is not written to state.history '
+                      'before the next command is processed (or the hook does not read state.history): a step with '
+                      'several sends shows every hook call the same stale history and keeps only one of them')
     if snd:
         ev = b.val(snd[0].args[1])
         oke = ev.kind == 'agg' and ev.key[1].endswith('Envelope') and len(ev.key[3]) == 3 and \
